@@ -394,6 +394,12 @@ def evaluateP (m : ModId) : Prog Int := do
     if r == 0 && stateIs s m .idle then do let _ ← startP m true; pure 0 else pure 0
   else pure 0
 
+/-- the model does not follow the C code here: from this point of a script on, the correspondence run compares nothing
+(the oracles still judge the implementation's trace); the evidence counts how often this happens -/
+def unmodelled (what : String) : Prog Int := do
+  modify fun s => s.emit (.note s!"UNMODELLED {what}")
+  pure 0
+
 /-- `m_map_iterate` over the context's module table: slots in order; a negative callback result
 stops with it, a positive one stops with 0; if the callback removed the current entry the slot is
 examined again; if the number of entries changed otherwise the iteration stops with -EACCES.
@@ -425,7 +431,16 @@ def slotList (s : St) : List (Nat × Bool) :=
 /-- `m_iterate(c->modules, fn, NULL)`; `m_map_iterate` refuses an empty map -/
 def iterMods (f : ModId → Prog Int) : Prog Int := do
   let s ← getSt
-  if s.tableLen = 0 then pure EINVAL else iterSlots f (slotList s) none
+  if s.tableLen = 0 then pure EINVAL else
+    let cid := (s.ctx.map (·.id)).getD 0
+    -- the table that is walked belongs to the context object the caller holds; if a callback released that context and
+    -- registered a new one on the thread, the C code goes on with the (now empty) old table: not modelled
+    iterSlots (fun m => do
+      let r ← f m
+      let s' ← getSt
+      match s'.ctx with
+      | some c' => if c'.id != cid then (do let _ ← unmodelled "a callback replaced the context whose module table is being walked"; pure 1) else pure r
+      | none => pure r) (slotList s) none
 
 /-! ## Deregistration and the context (mod.c `mod_deregister`, ctx.c) -/
 
@@ -584,12 +599,6 @@ def loopStartP : Prog Int := do
   modify fun s => tellSystem s none none T_CTX_STARTED
   pure 0
 
-/-- the model does not follow the C code here: from this point of a script on, the correspondence run compares nothing
-(the oracles still judge the implementation's trace); the evidence counts how often this happens -/
-def unmodelled (what : String) : Prog Int := do
-  modify fun s => s.emit (.note s!"UNMODELLED {what}")
-  pure 0
-
 /-- `loop_stop(c)`; `cid` identifies the context object the caller holds (the context object `c` stays alive throughout,
 even if a callback releases it).  If that context was already released when the function is entered (a callback of the
 blocking loop tore it down) the C code works on a dead object while the thread may own another one: not modelled. -/
@@ -689,8 +698,15 @@ def recvOneP (p : PollEnt) : Prog Nat := do
 def recvBatchP : List PollEnt → Nat → Prog (Nat × Bool)
   | [], n => pure (n, false)
   | p :: ps, n => do
+    let s0 ← getSt
     let k ← recvOneP p
-    if k ≥ 1000000 then pure (n, true) else recvBatchP ps (n + k)
+    let s1 ← getSt
+    -- (a callback that releases the context and registers a new one in the middle of a batch: not modelled)
+    let replaced := match s0.ctx, s1.ctx with
+      | some a, some b => a.id != b.id
+      | _, _ => false
+    if replaced then do let _ ← unmodelled "a callback replaced the context in the middle of a poll batch"; pure (n, true)
+    else if k ≥ 1000000 then pure (n, true) else recvBatchP ps (n + k)
 
 /-- `recv_events` for a recorded poll result -/
 def recvEventsP (batch : List PollEnt) : Prog Int := do
